@@ -40,10 +40,31 @@ Definition dom_full (st : pystate) : bool :=
   && forallb (fun sy => forallb (fun sx => slice_bytes_dom st sx sy) (zr (st_slices_x st))) (zr (st_slices_y st))
   && slices_have_same_dimensions_dom st.
 
-(* order-sensitive polynomial checksum of an observation (same formula in the harness) *)
-Definition hash_mod : Z := 2305843009213693951.   (* 2^61 - 1 *)
+(* order-sensitive polynomial checksum of an observation, mod 2^61 (same formula in the harness);
+   the multiplier is larger than every value of the box, so distinct lists differ before wrap-around *)
+Definition hash_mask : Z := 2305843009213693951.   (* 2^61 - 1 *)
 Definition hash_obs (l : list Z) : Z :=
-  fold_left (fun acc v => (acc * 1000003 + v + 1) mod hash_mod) l 7.
+  fold_left (fun acc v => Z.land (acc * 1000003 + v + 1) hash_mask) l 7.
+
+(* the box states are enumerated on both sides from their indices (literals are expensive to parse):
+   luma = (w, h); colour difference 4:4:4 / 4:2:2 / 4:2:0 and the slice_bytes fraction derived from
+   the indices -- the same formulas as box_state in tools/harness/C13.py *)
+Definition box_state (w h d dh nx ny : Z) : pystate :=
+  let mode := (w + h + d) mod 3 in
+  let cw := if mode =? 0 then w else (w + 1) / 2 in
+  let ch := if mode =? 2 then (h + 1) / 2 else h in
+  let num := (w * 31 + h * 17 + nx * 5 + dh) mod 97 in
+  let den := (h * 7 + w + ny) mod 13 + 1 in
+  mkst w h cw ch d dh nx ny num den.
+
+Definition group_states (w h d dh nmax : Z) : list pystate :=
+  flat_map (fun nx => map (fun ny => box_state w h d dh (nx + 1) (ny + 1)) (zr nmax)) (zr nmax).
+
+(* group cases: (w, h, d, dh, nmax, checksum of the per-state checksums of all nmax^2 slice counts) *)
+Definition chk_group (x : Z * Z * Z * Z * Z * Z) : bool :=
+  let '(w, h, d, dh, nmax, H) := x in
+  let sts := group_states w h d dh nmax in
+  (hash_obs (map (fun st => hash_obs (obs_full st)) sts) =? H) && forallb dom_full sts.
 
 Definition st_of (t : Z * Z * Z * Z * Z * Z * Z * Z * Z * Z) : pystate :=
   let '(lw, lh, cw, ch, d, dh, nx, ny, num, den) := t in mkst lw lh cw ch d dh nx ny num den.
